@@ -136,7 +136,7 @@ def paramAppliedB (ops : Ops DT Val) (g : Glue DT Val) (pd : ParamDesc DT Val) (
        | some d => optB g.beqVal o.value (ops.convert dt' d)
        | none => true) &&
     -- configured own properties
-    (items.all fun kv => match ops.ownProp kv.1 with
+    (o.described.isNone || items.all fun kv => match ops.ownProp kv.1 with
       | some f => if kv.1 = "readonly" || kv.1 = "visibility" then optB g.beqVal (lookup kv.1 o.own) (f kv.2) else true
       | none => true) &&
     -- export: described under the configured name, reachable under it and under no other
@@ -234,9 +234,44 @@ def offendingB (ops : Ops DT Val) (c : ClassDesc DT Val) (cfg : Cfg Val) : Bool 
        | _ => false)
     | _, _ => false)
 
+/-- the same kinds of error in the cfg of a derived `Limit` parameter (`<base>_min/_max/_limits` without own datatype):
+its datatype is the one derived from the base parameter's datatype after the base's overrides -/
+def limitOffendingB (ops : Ops DT Val) (c : ClassDesc DT Val) (cfg : Cfg Val) : Bool :=
+  c.params.any fun pd =>
+    match pd.dt, pd.limit with
+    | none, some k =>
+      (match c.params.find? (fun b => b.name == pd.base) with
+       | some b =>
+         (match b.dt with
+          | some bdt0 =>
+            (match dtAfter ops bdt0 ((cfgOf b.name cfg).getD []), lookup pd.name cfg with
+             | some bdt', some (.acc items) => paramOffenceB ops pd (ops.limitDT k bdt') items
+             | _, _ => false)
+          | none => false)
+       | none => false)
+    | _, _ => false
+
+def rejectedLimitB (ops : Ops DT Val) (c : ClassDesc DT Val) (cfg : Cfg Val) (o : ObsModule DT Val) : Bool :=
+  !limitOffendingB ops c cfg || (!o.registered && !o.errors.isEmpty)
+
 /-- an erroneous configuration registers nothing and is reported -/
 def rejectedB (ops : Ops DT Val) (c : ClassDesc DT Val) (cfg : Cfg Val) (o : ObsModule DT Val) : Bool :=
   !offendingB ops c cfg || (!o.registered && !o.errors.isEmpty)
+
+/-- forms of configuration outside the vocabulary of the statement which the constructor refuses (a parameter
+configured by something that is not a dict in a raw cfg, a property dict without `value`, a class whose
+limit parameter has no base or whose parameter has no datatype) -/
+def outsideB (c : ClassDesc DT Val) (cfg : Cfg Val) : Bool :=
+  (c.modProps.any fun d => match lookup d.name cfg with
+    | some (.prop (.dict none)) => true
+    | some (.acc items) => (lookup "value" items).isNone
+    | _ => false) ||
+  (c.params.any fun pd => (match lookup pd.name cfg with | some (.prop _) => true | _ => false) ||
+    (pd.dt.isNone && (pd.limit.isNone || !(c.params.any fun b => b.name == pd.base && b.dt.isSome))))
+
+/-- a configuration without any of the listed errors is applied, not rejected -/
+def acceptedB (ops : Ops DT Val) (c : ClassDesc DT Val) (cfg : Cfg Val) (o : ObsModule DT Val) : Bool :=
+  offendingB ops c cfg || limitOffendingB ops c cfg || outsideB c cfg || o.registered
 
 /-- never half applied: a module is registered xor reported -/
 def wholeB (o : ObsModule DT Val) : Bool := o.registered != !o.errors.isEmpty
